@@ -7,6 +7,7 @@
 //   S <first cp> <count> <hex>     same for a run of surrogates (informational offline; only the inverse claim is checked, online)
 //   D <hex> <cp>                   Unicode::fromString of a complete sequence        W <hex> <0|1>   Unicode::isValid of a byte string
 //   I <i32|u32|i64|u64> <bits hex> <text>     String::from*(value)                   X <input hex> <text>   String::fromHex
+//   A <i32|u32|i64|u64> <bits hex> <text>     member to*() of a String attached to exactly the characters <text> inside a larger block
 //   B <base64 text> <hex>          String::fromBase64 of an in-harness RFC 4648 encoding
 // modes: cp, dec2, dec3, dec4, dec-rand, int, hex, b64, b64-3, b64-rand, b64-bytes
 #include "vh.hpp"
@@ -300,6 +301,99 @@ static void cmpText(const String& s, const char* want, size_t wn, const char* ap
   cnt("int_texts_compared");
 }
 static bool g_recInts = false;
+
+// ---- member conversions on Strings ATTACHED to a sub-range of a larger heap block
+// A String that was attach()ed to [p, p+n) must convert exactly these n characters, whatever lies behind them. The text is placed inside an exactly-sized heap
+// block [0..3 digits][text][follow]; the block ends right after `follow`, so a parser that runs on behind the range either returns a different value (digits
+// behind the range, then a terminator) or leaves the block (digits up to the block end: ASan report for the intercepted atoi/atoll, wrong value otherwise).
+// `follow` is never empty: the library itself looks at the one byte behind an attached range (operator const char* tests str[len] to decide whether it needs a
+// terminated private copy), i.e. attach(p, n) requires p[n] to be readable - "nothing behind the range" therefore means one non-digit byte and then the block end.
+enum { FO_NUL = 0, FO_DIGITS_NUL, FO_DIGITS_END, FO_SIGN_END, FO_FRAC_NUL, FO_OTHER_END, FO_N };
+static const char* const foName[FO_N] = { "terminator", "digits+terminator", "digits-to-block-end", "sign+digit-to-block-end", "fraction-or-exponent+terminator", "one-non-digit-byte-at-block-end" };
+static Rng* g_ra = 0;              // randomness of the attached views (separate stream: the value stream of the case is the one it was before these checks existed)
+static bool g_allFollow = false;   // boundary case: every follow class (twice) for every value; otherwise one drawn class per value
+static int drawFollow(Rng& r) { static const int w[12] = { FO_DIGITS_NUL, FO_DIGITS_NUL, FO_DIGITS_NUL, FO_DIGITS_NUL, FO_DIGITS_END, FO_DIGITS_END, FO_DIGITS_END, FO_NUL, FO_SIGN_END, FO_FRAC_NUL, FO_OTHER_END, FO_OTHER_END }; return w[r.below(12)]; }
+
+struct AttView {
+  char* blk; char* orig; size_t B, off, n; int fo;
+  AttView(const char* text, size_t tn, int follow, Rng& r) : blk(0), orig(0), B(0), off(0), n(tn), fo(follow) {
+    char f[8]; size_t fn = 0; int k = 1 + (int)r.below(3);
+    switch (fo) {
+    case FO_NUL: f[fn++] = 0; break;
+    case FO_DIGITS_NUL: for (int i = 0; i < k; ++i) f[fn++] = (char)('0' + r.below(10)); f[fn++] = 0; break;
+    case FO_DIGITS_END: for (int i = 0; i < k; ++i) f[fn++] = (char)('0' + r.below(10)); break;
+    case FO_SIGN_END: f[fn++] = "-+"[r.below(2)]; f[fn++] = (char)('0' + r.below(10)); break;
+    case FO_FRAC_NUL: if (r.chance(1, 2)) { f[fn++] = '.'; f[fn++] = (char)('1' + r.below(9)); } else { f[fn++] = "eE"[r.below(2)]; f[fn++] = (char)('1' + r.below(9)); } f[fn++] = 0; break;
+    default: f[fn++] = " \xa5.eEx,;\t\n/:-+"[r.below(15)]; break;
+    }
+    off = (size_t)r.below(4); B = off + n + fn; blk = (char*)malloc(B); orig = (char*)malloc(B); if (!blk || !orig) harnessBug("out of memory");
+    for (size_t i = 0; i < off; ++i) blk[i] = (char)('0' + r.below(10)); if (n) memcpy(blk + off, text, n); memcpy(blk + off + n, f, fn); memcpy(orig, blk, B);
+  }
+  ~AttView() { free(blk); free(orig); }
+  const char* state() const { return n == 0 ? "attached-empty" : fo == FO_NUL ? "attached-terminated" : "attached-unterminated"; }
+  void attach(String& s) const { s.attach(blk + off, n); if (s.data == &s._data && s._data.ref == 0 && s._data.str == blk + off && s._data.len == n) cnt("attached_state_confirmed"); }
+  void intact(const char* api) const {
+    if (memcmp(blk, orig, B)) { char k[128]; snprintf(k, sizeof k, "String.%s/%s/wrote-through-attached-memory", api, state()); fail(k, "%s() modified the block the String was attached to", api); }
+  }
+  void describe(Text& t) const { t.addf("  block of %lu bytes \"", (unsigned long)B); t.addEsc(blk, B); t.addf("\", String attached to [%lu,%lu), behind it: %s\n", (unsigned long)off, (unsigned long)(off + n), foName[fo]); }
+private:
+  AttView(const AttView&); AttView& operator=(const AttView&);
+};
+
+typedef __int128 i128;
+enum { TY_I32 = 0, TY_U32, TY_I64, TY_U64 };
+static const char* const tyTo[4] = { "toInt", "toUInt", "toInt64", "toUInt64" };
+static const char* const tyFrom[4] = { "fromInt", "fromUInt", "fromInt64", "fromUInt64" };
+static const char* const tyRec[4] = { "i32", "u32", "i64", "u64" };
+static bool fitsTy(int ty, i128 v) { switch (ty) { case TY_I32: return v >= INT_MIN && v <= INT_MAX; case TY_U32: return v >= 0 && v <= (i128)UINT_MAX; case TY_I64: return v >= (i128)LLONG_MIN && v <= (i128)LLONG_MAX; default: return v >= 0 && v <= (i128)ULLONG_MAX; } }
+static unsigned long long parseMember(int ty, const String& a) { switch (ty) { case TY_I32: return (unsigned long long)(long long)a.toInt(); case TY_U32: return (unsigned long long)a.toUInt(); case TY_I64: return (unsigned long long)a.toInt64(); default: return (unsigned long long)a.toUInt64(); } }
+static String fromMember(int ty, unsigned long long pat) { switch (ty) { case TY_I32: return String::fromInt((int)(long long)pat); case TY_U32: return String::fromUInt((unsigned)pat); case TY_I64: return String::fromInt64((int64)pat); default: return String::fromUInt64((uint64)pat); } }
+static void showVal(int ty, unsigned long long pat, char* out, size_t cap) { if (ty == TY_I32 || ty == TY_I64) snprintf(out, cap, "%lld", (long long)pat); else snprintf(out, cap, "%llu", pat); }
+
+static void oneAttachedView(int ty, i128 val, const char* w, size_t wn, int fo) {
+  Rng& r = *g_ra; AttView v(w, wn, fo, r); const char* st = v.state(); size_t mark = hist.n; v.describe(hist);
+  unsigned long long want = (unsigned long long)val;   // two's complement pattern, sign-extended to 64 bits
+  for (int t2 = 0; t2 < 4; ++t2) {   // every member whose range holds the value
+    if (!fitsTy(t2, val)) continue;
+    String a; v.attach(a);
+    setctxf("String.%s/%s", tyTo[t2], st);
+    unsigned long long got = parseMember(t2, a); cnt("int_attached_parses"); cnt(fo == FO_NUL ? "int_attached_terminated_parses" : "int_attached_unterminated_parses");
+    if (got != want) { char k[128], g[32], x[32]; snprintf(k, sizeof k, "String.%s/%s/value", tyTo[t2], st); showVal(t2, got, g, sizeof g); showVal(t2, want, x, sizeof x);
+      fail(k, "%s() of a String attached to the %lu characters \"%.*s\" inside a larger block (behind them: %s) = %s, the value of exactly these characters is %s", tyTo[t2], (unsigned long)wn, (int)wn, w, foName[fo], g, x); }
+    v.intact(tyTo[t2]);
+    if (t2 == ty && g_recInts && wn) rec("A %s %016llx %.*s\n", tyRec[t2], got, (int)wn, w);
+  }
+  if (val >= -((i128)1 << 53) && val <= ((i128)1 << 53)) {   // integers of this size are exact doubles
+    String a; v.attach(a); setctxf("String.toDouble/%s", st);
+    double d = a.toDouble(), wd = (double)(long long)val; cnt("double_attached_parses");
+    if (d != wd) { char k[128]; snprintf(k, sizeof k, "String.toDouble/%s/value", st); fail(k, "toDouble() of a String attached to the %lu characters \"%.*s\" inside a larger block (behind them: %s) = %.17g, the value of exactly these characters is %.17g", (unsigned long)wn, (int)wn, w, foName[fo], d, wd); }
+    v.intact("toDouble");
+  }
+  if (wn) {   // from(to(view)) == view, compared as Strings (a second view of the same characters)
+    String a; v.attach(a); setctxf("String.%s/%s", tyTo[ty], st);
+    unsigned long long x = parseMember(ty, a); setctxf("String.%s/after-%s-of-attached-view", tyFrom[ty], tyTo[ty]); String back = fromMember(ty, x); String b; v.attach(b);
+    if (!(back == b) || back.length() != wn) { char k[128]; snprintf(k, sizeof k, "String.%s(%s)/%s/round-trip", tyFrom[ty], tyTo[ty], st); const char* bz = back;
+      fail(k, "%s(%s()) of a String attached to the characters \"%.*s\" inside a larger block (behind them: %s) gives \"%.40s\"", tyFrom[ty], tyTo[ty], (int)wn, w, foName[fo], bz); }
+    cnt("int_attached_round_trips"); cnt("int_attached_parses");
+  }
+  cnt("int_attached_views"); if (fo == FO_DIGITS_NUL || fo == FO_DIGITS_END) cnt("int_attached_views_with_digits_behind"); if (fo == FO_DIGITS_END || fo == FO_SIGN_END || fo == FO_OTHER_END) cnt("int_attached_views_ending_at_block_end");
+  setItem("attached_follow_classes", foName[fo]); setItem("attached_state_classes", st);
+  hist.n = mark; if (hist.d) hist.d[hist.n] = 0;
+}
+// `text` is the library's own from*() result for the value (already compared with the reference digits): from*(x) -> attached view of that text -> to*() == x
+static void attachedViews(int ty, i128 val, const String& text) {
+  const char* w = text; size_t wn = text.length();
+  if (g_allFollow) { for (int rep = 0; rep < 2; ++rep) for (int fo = 0; fo < FO_N; ++fo) oneAttachedView(ty, val, w, wn, fo); }
+  else oneAttachedView(ty, val, w, wn, drawFollow(*g_ra));
+}
+// toDouble on an attached view of a decimal text; reference = libc strtod on a terminated copy of exactly the attached characters
+static void attachedDouble(const char* w, size_t wn, int fo) {
+  ExactZ z(w, wn); double wd = strtod(z.p, 0); AttView v(w, wn, fo, *g_ra); const char* st = v.state();
+  hist.n = 0; hist.addf("double text \"%s\"\n", z.p); v.describe(hist);
+  String a; v.attach(a); setctxf("String.toDouble/%s", st); double d = a.toDouble(); cnt("double_attached_parses"); cnt("double_texts_attached");
+  if (memcmp(&d, &wd, sizeof d)) { char k[128]; snprintf(k, sizeof k, "String.toDouble/%s/value", st); fail(k, "toDouble() of a String attached to the %lu characters \"%s\" inside a larger block (behind them: %s) = %.17g, strtod of exactly these characters is %.17g", (unsigned long)wn, z.p, foName[fo], d, wd); }
+  v.intact("toDouble"); setItem("attached_follow_classes", foName[fo]);
+}
 static void oneI32(int v, const char* cls) {
   char w[24]; size_t wn = refDigits(v < 0 ? 0ull - (unsigned long long)(long long)v : (unsigned long long)v, v < 0, w);
   hist.n = 0; hist.addf("int %s (%s)\n", w, cls);
@@ -308,6 +402,7 @@ static void oneI32(int v, const char* cls) {
   setctxf("String.toInt/%s", cls); int a = s.toInt(), b = String::toInt(z.p), c = own.toInt(); cnt("int_parses", 3);
   if (a != v || b != v || c != v) { char k[96]; snprintf(k, sizeof k, "String.toInt/%s/value", cls); fail(k, "toInt(\"%s\") = %d / %d / %d (member on fromInt result, static, member on copy)", w, a, b, c); }
   if (g_recInts) rec("I i32 %08x %s\n", (unsigned)v, (const char*)s);
+  attachedViews(TY_I32, (i128)v, s);
 }
 static void oneU32(unsigned v, const char* cls) {
   char w[24]; size_t wn = refDigits(v, false, w);
@@ -317,6 +412,7 @@ static void oneU32(unsigned v, const char* cls) {
   setctxf("String.toUInt/%s", cls); unsigned a = s.toUInt(), b = String::toUInt(z.p), c = own.toUInt(); cnt("int_parses", 3);
   if (a != v || b != v || c != v) { char k[96]; snprintf(k, sizeof k, "String.toUInt/%s/value", cls); fail(k, "toUInt(\"%s\") = %u / %u / %u", w, a, b, c); }
   if (g_recInts) rec("I u32 %08x %s\n", v, (const char*)s);
+  attachedViews(TY_U32, (i128)v, s);
 }
 static void oneI64(long long v, const char* cls) {
   char w[24]; size_t wn = refDigits(v < 0 ? 0ull - (unsigned long long)v : (unsigned long long)v, v < 0, w);
@@ -326,6 +422,7 @@ static void oneI64(long long v, const char* cls) {
   setctxf("String.toInt64/%s", cls); long long a = s.toInt64(), b = String::toInt64(z.p), c = own.toInt64(); cnt("int_parses", 3);
   if (a != v || b != v || c != v) { char k[96]; snprintf(k, sizeof k, "String.toInt64/%s/value", cls); fail(k, "toInt64(\"%s\") = %lld / %lld / %lld", w, a, b, c); }
   if (g_recInts) rec("I i64 %016llx %s\n", (unsigned long long)v, (const char*)s);
+  attachedViews(TY_I64, (i128)v, s);
 }
 static void oneU64(unsigned long long v, const char* cls) {
   char w[24]; size_t wn = refDigits(v, false, w);
@@ -335,6 +432,7 @@ static void oneU64(unsigned long long v, const char* cls) {
   setctxf("String.toUInt64/%s", cls); unsigned long long a = s.toUInt64(), b = String::toUInt64(z.p), c = own.toUInt64(); cnt("int_parses", 3);
   if (a != v || b != v || c != v) { char k[96]; snprintf(k, sizeof k, "String.toUInt64/%s/value", cls); fail(k, "toUInt64(\"%s\") = %llu / %llu / %llu", w, a, b, c); }
   if (g_recInts) rec("I u64 %016llx %s\n", v, (const char*)s);
+  attachedViews(TY_U64, (i128)v, s);
 }
 static void allTypes(unsigned long long bits, const char* cls) {
   oneI32((int)(unsigned)bits, cls); oneU32((unsigned)bits, cls); oneI64((long long)bits, cls); oneU64(bits, cls); cnt("int_values", 4);
@@ -342,7 +440,7 @@ static void allTypes(unsigned long long bits, const char* cls) {
 static void integers() {
   for (long idx = opts.start; idx < opts.start + opts.cases; ++idx) {
     if (!mine(idx)) continue;
-    beginCase(idx); Rng r(opts.seed, 1803, (u64)idx);
+    beginCase(idx); Rng r(opts.seed, 1803, (u64)idx); Rng ra(opts.seed, 1813, (u64)idx); g_ra = &ra; g_allFollow = idx == 0;
     if (idx == 0) {   // boundaries: 0, +-1, +-2^k, +-2^k +- 1, min/max of each type, powers of ten (digit-count boundaries)
       g_recInts = true;
       allTypes(0, "zero"); allTypes(1, "boundary"); allTypes(~0ull, "boundary");
@@ -351,11 +449,22 @@ static void integers() {
       oneI32(INT_MIN, "min"); oneI32(INT_MAX, "max"); oneU32(UINT_MAX, "max"); oneI64(LLONG_MIN, "min"); oneI64(LLONG_MAX, "max"); oneU64(ULLONG_MAX, "max"); cnt("int_values", 6);
       setItem("int_classes", "zero"); setItem("int_classes", "boundary"); setItem("int_classes", "power-of-two"); setItem("int_classes", "power-of-ten"); setItem("int_classes", "min"); setItem("int_classes", "max");
       sample("integer boundaries: 0, +-1, +-2^k(+-1) k<64, +-10^k(+-1) k<20, min/max of int, uint, int64, uint64");
+      // an attached range of length 0 in front of digits: every member conversion gives 0
+      for (int rep = 0; rep < 4; ++rep) for (int fo = 0; fo < FO_N; ++fo) { hist.n = 0; hist.add("empty attached range\n"); oneAttachedView(TY_I32, 0, "", 0, fo); cnt("int_attached_empty_views"); }
+      // decimal texts with fraction / exponent through toDouble on attached views, every follow class
+      static const char* const dtx[] = { "0.5", "1.25", "-3.75", "1e3", "2.5e-3", "123456.789", "-0.0001", "1e308", "4.9e-324", "1.7976931348623157e308", "9007199254740993", "0.1", "3.14159265358979", "-1e-5", "5e", "7.", ".5", "-.25e2" };
+      for (unsigned i = 0; i < sizeof dtx / sizeof *dtx; ++i) for (int fo = 0; fo < FO_N; ++fo) attachedDouble(dtx[i], strlen(dtx[i]), fo);
+      sample("attached views: every boundary value's from*() text inside a larger exactly-sized block, followed by each of {terminator, digits+terminator, digits to block end, sign+digit, .d/ed+terminator, one non-digit byte at block end}, through toInt/toUInt/toInt64/toUInt64/toDouble and from*(to*(view)) == view");
     } else {
       for (int i = 0; i < 250; ++i) {
         g_recInts = (i & 15) == 0; unsigned long long v = r.next();
         switch (r.below(4)) { case 0: break; case 1: v >>= r.below(64); break; case 2: v = 0ull - (v >> r.below(64)); break; default: v = (unsigned long long)r.below(100000) * (r.chance(1, 2) ? 1 : ~0ull); break; }
         allTypes(v, "random");
+      }
+      for (int i = 0; i < 16; ++i) {   // random finite doubles in shortest-exact notation through toDouble on an attached view
+        union { double d; unsigned long long u; } x; x.u = ra.next(); if (((x.u >> 52) & 0x7ff) == 0x7ff) x.u &= ~(1ull << 62);
+        if (ra.chance(1, 4)) { int sh = (int)ra.below(64), den = (int)ra.below(12); x.d = (double)(long long)(x.u >> sh) / (double)(1 << den); }
+        char t[40]; int n = snprintf(t, sizeof t, "%.17g", x.d); attachedDouble(t, (size_t)n, drawFollow(ra));
       }
       setItem("int_classes", "random");
     }
